@@ -59,6 +59,8 @@ type Result struct {
 	N            *lin.Expr
 	Idle         *lin.Expr // the receiver's IdlePeriod() (nil when the type has none or it is not evaluable)
 	HasIdle      bool      // the receiver type declares IdlePeriod
+	// ContractsUsed: indicator types whose Compute was summarised by the declared IdlePeriod contract
+	ContractsUsed map[string]bool
 }
 
 type Interp struct {
@@ -242,7 +244,7 @@ func (it *Interp) runRoot(fi *load.FuncInfo, script []int) (res *Result) {
 	it.nStream, it.nStage, it.nFork, it.nOpq = 0, 0, 0, 0
 	it.callDepth = 0
 	it.states = map[*Stage]*stState{}
-	res = &Result{Root: fi, RootName: load.FuncName(fi.Fn), G: it.G}
+	res = &Result{Root: fi, RootName: load.FuncName(fi.Fn), G: it.G, ContractsUsed: map[string]bool{}}
 	it.res = res
 	defer func() {
 		if r := recover(); r != nil {
